@@ -33,6 +33,8 @@ class Register(Operand):
     @property
     def cstruct(self):
         self._assert_types()
+        if not 0 <= self.index < 2**encoding.REG_INDEX_BITS:
+            raise OverflowError(f"register index {self.index} cannot be encoded")
         return encoding.Register(self.name.value, self.index)
 
     def __bytes__(self):
@@ -57,6 +59,7 @@ class Address(Operand):
     @property
     def cstruct(self):
         self._assert_types()
+        encoding.assert_fits(self.address, encoding.ADDRESS)
         return encoding.Address(self.address)
 
     def __bytes__(self):
